@@ -199,13 +199,25 @@ def run_property(prop, tier, seed, timeout, args, t_start):
     # retry undecided ones once with 4x budget and another seed
     undec = [r["idx"] for r in results if r["status"] == "unknown" and not is_canary[r["idx"]]]
     if undec:
-        sub = [all_obl[i] for i in undec]
-        # second attempt with a generous budget and fewer parallel workers (a loaded machine must not flip a verdict)
-        r2 = solve.solve_all(sub, timeout=max(60, timeout * 6), seed=seed + 7, workers=6)
-        for i, r in zip(undec, r2):
-            r["idx"] = i
-            r["retried"] = True
-            results[i] = r
+        # second attempt with a generous budget and fewer parallel workers (a loaded machine must not flip a verdict).  The type variants
+        # of one obligation share their fate almost always: three representatives per obligation are retried first, the remaining
+        # variants only if those were all decided (otherwise the obligation is undischarged anyway) -- this bounds the time a run on a
+        # broken tree can take.
+        def retry(idxs):
+            sub = [all_obl[i] for i in idxs]
+            r2 = solve.solve_all(sub, timeout=max(60, timeout * 6), seed=seed + 7, workers=6)
+            for i, r in zip(idxs, r2):
+                r["idx"] = i
+                r["retried"] = True
+                results[i] = r
+        groups_u = {}
+        for i in undec:
+            groups_u.setdefault(base_name(all_obl[i].name), []).append(i)
+        wave1 = [i for g in groups_u.values() for i in g[:3]]
+        retry(wave1)
+        wave2 = [i for g in groups_u.values() if all(results[j]["status"] != "unknown" for j in g[:3]) for i in g[3:]]
+        if wave2:
+            retry(wave2)
     reach_res = []
     if reach:
         from pyvc.ctx import Obligation
